@@ -212,4 +212,28 @@ theorem indent_roundtrip {t : Tree} (hr : Representable env t = true) {str : Str
     simp only [parseString, lexMode, hl]
     exact hp
 
+/-! ### Any start node other than a document: the string -/
+
+/-- **The indented string for an element (comment, PI, text) start node** of a `nodeOK` tree: the rendering
+    of `spellNodeP` of the subtree — white space runs inside its elements included — followed by one line
+    feed for a markup node; it fails exactly where the plain serialisation fails.  (The reparse of such a
+    string is a document around the node: not covered by the round-trip theorems.) -/
+theorem serializePretty_at (t : Tree) (start : Path) (n : Tree) (inScope : List (Nat × Nat))
+    (hat : t.at? start = some n) (hsc : namespacesInScope t start = some inScope)
+    (henv : envOK env = true) (ht : t.allNodes (nodeOK env) = true) (hdoc : n.value.isDocument = false) :
+    serializePretty env pr sup t start =
+      (match serTokensAtO env pr t start with
+       | .ok _ => .ok (wrapP [] n.value (renderTokens (NSNode.tokens.tokensList
+            (spellNodeP env pr sup inScope true (FStack.new inScope) (startCd pr t start) [] n))))
+       | .error e => .err e) := by
+  have hnamed := named_initStack env t start (by rw [envOK_xmlPrefix env henv]; simp) (nodeOK_declsNamed env _ ht)
+  have hinit : initStack t start = FStack.new inScope := by simp [initStack, hsc]
+  rw [hinit] at hnamed
+  rw [show serializePretty env pr sup t start = serializePrettyWith xmlEscapers env pr sup t start from rfl,
+    serializePretty_runPEvents, hinit]
+  have hgen : genOutputs t start = genNode inScope true start n := by simp [genOutputs, hat, hsc]
+  rw [hgen, runP_node env pr sup t inScope true start n _ [] hat hnamed (subtree_allNodes _ t start n hat ht) hdoc]
+  simp only [serTokensAtO, hat, hsc, startCd]
+  cases serNodeO env pr inScope true (FStack.new inScope) (isCdataElement pr (t.parentAt? start)) n <;> rfl
+
 end XotModel
